@@ -153,6 +153,7 @@ class Analyzer:
         self.call_log = {}
         self.families = self._families()
         self.kwflag_defaults = {}
+        self.call_sites = {}
 
     # receiver typing: families of repo classes and the attribute names they offer
     SLOT_TYPES = {
@@ -233,6 +234,7 @@ class Analyzer:
         self.summaries[f] = s
         self.effects_by_func[f] = fa.effects
         self.flag_params[f] = fa.flags
+        self.call_sites[f] = list(fa.calls)
         return fa
 
 
@@ -400,8 +402,24 @@ class FuncAnalysis:
         self.block(self.f.node.body, env)
 
     def block(self, stmts, env):
-        for s in stmts:
-            self.stmt(s, env)
+        saved = self.pathcond
+        try:
+            for s in stmts:
+                self.stmt(s, env)
+                # early exit: `if c: ...; return` makes the rest of this block run under `not c`
+                if isinstance(s, ast.If):
+                    pos, neg = self.literal(s.test)
+                    if pos:
+                        if _always_exits(s.body) and not (s.orelse and _always_exits(s.orelse)):
+                            c = cond_and(self.pathcond, neg)
+                            if c is not None:
+                                self.pathcond = c
+                        elif s.orelse and _always_exits(s.orelse) and not _always_exits(s.body):
+                            c = cond_and(self.pathcond, pos)
+                            if c is not None:
+                                self.pathcond = c
+        finally:
+            self.pathcond = saved
 
     def stmt(self, s, env):
         m = getattr(self, "s_" + type(s).__name__, None)
